@@ -2,10 +2,10 @@ ASSUMPTIONS = ['fail-fast semantics as documented: a push/pop may fail under con
 OUTSIDE = ('more threads / operations than stated; capacities other than 2 (power of two) and 3 (exact); counter wrap-around of the 64-bit head/tail; '
            'weak-memory reorderings (sequential consistency is assumed for the atomics); payload types other than int32 / lifetime-tracked int')
 INSTANCES = [
-    {'name': 'conc_cap2', 'src': 'mpmc_conc.cpp', 'engine': 'cbmc-par', 'defs': {'VF_CAP': 2, 'VF_POW2': 'true', 'VF_BATCH': 0},
+    {'name': 'conc_cap2', 'src': 'mpmc_conc.cpp', 'engine': 'cbmc-seq', 'steps': 4, 'spin_loops': True, 'defs': {'VF_CAP': 2, 'VF_POW2': 'true', 'VF_BATCH': 0},
      'unwind': 7, 'nthreads': 4, 'timeout': 1500,
      'bounds': 'capacity 2; producer A: 2 pushes, producer B: 1 push, consumer: 2 pops (kinds symbolic), then quiescent drain by main'},
-    {'name': 'conc_cap3_batch', 'src': 'mpmc_conc.cpp', 'engine': 'cbmc-par', 'defs': {'VF_CAP': 3, 'VF_POW2': 'false', 'VF_BATCH': 1},
+    {'name': 'conc_cap3_batch', 'src': 'mpmc_conc.cpp', 'engine': 'cbmc-seq', 'steps': 8, 'spin_loops': True, 'defs': {'VF_CAP': 3, 'VF_POW2': 'false', 'VF_BATCH': 1},
      'unwind': 7, 'nthreads': 4, 'timeout': 1500,
      'bounds': 'capacity 3 (exact, modulo indexing); producer A: try_push_batch(2), producer B: 1 push, consumer: 2 pops, then quiescent drain'},
     {'name': 'seq_cap2', 'src': 'mpmc_seq.cpp', 'engine': 'cbmc', 'defs': {'VF_CAP': 2, 'VF_POW2': 'true', 'VF_OPS': 4},
